@@ -31,11 +31,12 @@ const N_SESSIONS: usize = 4;
 const TOPIC_OF: [u8; N_SESSIONS] = [1, 1, 1, 2];
 const OP_NAMES: [&str; 2] = ["x", "y"];
 /// When the consumer calls `subscribe()`.
-const SUB_MODES: usize = 3;
-const SUB_TEXT: [&str; 3] = [
+const SUB_MODES: usize = 4;
+const SUB_TEXT: [&str; 4] = [
     "before the sessions were created",
     "after two sessions were created",
     "after all sessions were created",
+    "before the sessions were created, after an earlier subscription had been taken and dropped",
 ];
 
 #[derive(Clone, Copy, Debug, PartialEq, Eq, Hash, PartialOrd, Ord)]
@@ -200,7 +201,11 @@ fn run_one(script: &[Action], sub_mode: usize, ch: &Chooser) -> Obs {
         let mut events = None;
         let mut session_futs = vec![];
         for id in 0..N_SESSIONS {
-            if (sub_mode == 0 && id == 0) || (sub_mode == 1 && id == 2) {
+            if sub_mode == 3 && id == 0 {
+                // an application that subscribed, went away and came back
+                drop(manager.subscribe());
+            }
+            if ((sub_mode == 0 || sub_mode == 3) && id == 0) || (sub_mode == 1 && id == 2) {
                 events = Some(manager.subscribe());
             }
             let config = SessionConfig {
